@@ -1126,3 +1126,282 @@ def rule_roots(run: Run, prog: Program) -> int:
                         f"`{ast.unparse(ex)[:50]}` is not a root in the {branch} branch: {what} is {resid.show()[:120]}, not 0"
                         + (" - the sign is wrong: for x^3 - 3x^2 + 3x - 1 = (x - 1)^3 the value is -1" if branch == "triple root" else ""), loc)
     return n
+
+
+# ---------------------------------------------------------------------------------------------- roots(): divisors over the zero domain
+Z, NZ, UK = "zero", "nonzero", "unknown"
+_ZERO_PRESERVING = {"sqrt", "csqrt", "cbrt", "conj", "conjugate", "abs", "absolute", "negative", "real_if_close", "float", "complex", "asarray", "array", "square"}
+
+
+class _DivisionByZero(Exception):
+    def __init__(self, node):
+        self.node = node
+
+
+class _GuardedDivision(Exception):
+    def __init__(self, node):
+        self.node = node
+
+
+def _deps(e: ast.AST, env: dict) -> frozenset:
+    """the coefficients an expression is computed from (through the locals of the path)"""
+    d = env.get("__deps__", {})
+    out: set = set()
+    for x in ast.walk(e):
+        if isinstance(x, ast.Name):
+            out |= d.get(x.id, frozenset({x.id}))
+    return frozenset(out)
+
+
+class _ZeroInterp:
+    """roots() over the abstract domain {zero, nonzero, unknown}: every coefficient is fixed to `zero` or `nonzero`, the body is interpreted
+    path by path (an undecided test forks), and a division whose divisor is definitely zero is reported."""
+
+    def __init__(self):
+        self.findings: list[tuple[ast.AST, dict]] = []
+        self.paths = 0
+        self.divisions = 0
+
+    def zero_divisor(self, node: ast.AST, divisor: ast.AST, env: dict):
+        # a test that could not be decided and reads what the divisor is computed from may be the guard of this division
+        if _deps(divisor, env) & env.get("__guards__", frozenset()):
+            raise _GuardedDivision(node)
+        raise _DivisionByZero(node)
+
+    def ev(self, e: ast.AST, env: dict) -> str:
+        if isinstance(e, ast.Constant):
+            if isinstance(e.value, (int, float, complex)) and not isinstance(e.value, bool):
+                return Z if e.value == 0 else NZ
+            return UK
+        if isinstance(e, ast.Name):
+            return env.get(e.id, UK)
+        if isinstance(e, ast.UnaryOp) and isinstance(e.op, (ast.USub, ast.UAdd)):
+            return self.ev(e.operand, env)
+        if isinstance(e, ast.BinOp):
+            l, r = self.ev(e.left, env), self.ev(e.right, env)
+            if isinstance(e.op, (ast.Add, ast.Sub)):
+                if l == Z:
+                    return r
+                if r == Z:
+                    return l
+                return UK
+            if isinstance(e.op, ast.Mult):
+                if Z in (l, r):
+                    return Z
+                return NZ if l == r == NZ else UK
+            if isinstance(e.op, (ast.Div, ast.FloorDiv)):
+                self.divisions += 1
+                if r == Z:
+                    self.zero_divisor(e, e.right, env)
+                if r == NZ:
+                    return l if l in (Z, NZ) and not isinstance(e.op, ast.FloorDiv) else (Z if l == Z else UK)
+                return UK
+            if isinstance(e.op, ast.Pow):
+                if isinstance(e.right, ast.Constant) and isinstance(e.right.value, (int, float)) and e.right.value > 0:
+                    return l
+                if isinstance(e.right, ast.Constant) and isinstance(e.right.value, (int, float)) and e.right.value < 0:
+                    self.divisions += 1
+                    if l == Z:
+                        self.zero_divisor(e, e.left, env)
+                    return l
+                return UK
+            return UK
+        if isinstance(e, ast.Call):
+            name = e.func.attr if isinstance(e.func, ast.Attribute) else e.func.id if isinstance(e.func, ast.Name) else ""
+            args = [self.ev(x, env) for x in e.args]  # divisions inside arguments are visited
+            if name in _ZERO_PRESERVING and len(args) == 1 and not isinstance(e.args[0], (ast.List, ast.Tuple)):
+                return args[0]
+            if name in ("divide", "true_divide") and len(args) == 2:
+                self.divisions += 1
+                if args[1] == Z:
+                    self.zero_divisor(e, e.args[1], env)
+                return args[0] if args[1] == NZ and args[0] in (Z, NZ) else UK
+            if name == "reciprocal" and len(args) == 1:
+                self.divisions += 1
+                if args[0] == Z:
+                    self.zero_divisor(e, e.args[0], env)
+                return args[0]
+            return UK
+        if isinstance(e, (ast.List, ast.Tuple)):
+            for x in e.elts:
+                self.ev(x, env)
+            return UK
+        if isinstance(e, ast.IfExp):
+            t = self.test(e.test, env)
+            if t is True:
+                return self.ev(e.body, env)
+            if t is False:
+                return self.ev(e.orelse, env)
+            env = dict(env)
+            env["__guards__"] = env.get("__guards__", frozenset()) | _deps(e.test, env)
+            x, y = self.ev(e.body, self.refine(e.test, env, True)), self.ev(e.orelse, self.refine(e.test, env, False))
+            return x if x == y else UK
+        for x in ast.iter_child_nodes(e):
+            if isinstance(x, ast.expr):
+                self.ev(x, env)
+        return UK
+
+    def test(self, t: ast.AST, env: dict):
+        """True / False / None (undecided)"""
+        if isinstance(t, ast.BoolOp):
+            vals = [self.test(v, env) for v in t.values]
+            if isinstance(t.op, ast.And):
+                return False if False in vals else (True if all(v is True for v in vals) else None)
+            return True if True in vals else (False if all(v is False for v in vals) else None)
+        if isinstance(t, ast.UnaryOp) and isinstance(t.op, ast.Not):
+            v = self.test(t.operand, env)
+            return None if v is None else not v
+        if isinstance(t, ast.Compare) and len(t.ops) == 1:
+            l, r = self.ev(t.left, env), self.ev(t.comparators[0], env)
+            op = t.ops[0]
+            for side, other_node, flip in ((l, t.comparators[0], False), (r, t.left, True)):
+                if side == Z and isinstance(other_node, ast.Constant) and isinstance(other_node.value, (int, float)) and not isinstance(other_node.value, bool):
+                    x, y = (other_node.value, 0) if flip else (0, other_node.value)
+                    table = {ast.Eq: x == y, ast.NotEq: x != y, ast.Lt: x < y, ast.LtE: x <= y, ast.Gt: x > y, ast.GtE: x >= y}
+                    if type(op) in table:
+                        return table[type(op)]
+            if Z in (l, r):
+                other = r if l == Z else l
+                if isinstance(op, ast.Eq):
+                    return True if other == Z else False if other == NZ else None
+                if isinstance(op, ast.NotEq):
+                    return False if other == Z else True if other == NZ else None
+                if isinstance(op, (ast.LtE, ast.GtE)):
+                    return True if other == Z else None
+                if isinstance(op, (ast.Lt, ast.Gt)):
+                    return False if other == Z else None
+            return None
+        return None
+
+    def refine(self, t: ast.AST, env: dict, outcome: bool) -> dict:
+        """the environment on one side of an undecided test: `x == 0` / `x != 0` on a name fixes that name"""
+        env = dict(env)
+        if isinstance(t, ast.BoolOp):
+            if (isinstance(t.op, ast.And) and outcome) or (isinstance(t.op, ast.Or) and not outcome):
+                for v in t.values:
+                    env = self.refine(v, env, outcome)
+            return env
+        if isinstance(t, ast.UnaryOp) and isinstance(t.op, ast.Not):
+            return self.refine(t.operand, env, not outcome)
+        if isinstance(t, ast.Compare) and len(t.ops) == 1 and isinstance(t.ops[0], (ast.Eq, ast.NotEq)):
+            l, r = t.left, t.comparators[0]
+            name = l if isinstance(l, ast.Name) else r if isinstance(r, ast.Name) else None
+            const = r if name is l else l
+            if name is not None and isinstance(const, ast.Constant) and const.value == 0 and env.get(name.id, UK) == UK:
+                is_zero = outcome == isinstance(t.ops[0], ast.Eq)
+                env[name.id] = Z if is_zero else NZ
+        return env
+
+    def block(self, stmts: list, env: dict, rest: list) -> None:
+        """interprets stmts then rest (continuation); every completed path counts"""
+        for i, st in enumerate(stmts):
+            if isinstance(st, ast.Return):
+                if st.value is not None:
+                    self.ev(st.value, env)
+                self.paths += 1
+                return
+            if isinstance(st, ast.Raise):
+                self.paths += 1
+                return
+            if isinstance(st, ast.If):
+                after = stmts[i + 1:]
+                v = self.test(st.test, env)
+                if v is None:
+                    env = dict(env)
+                    env["__guards__"] = env.get("__guards__", frozenset()) | _deps(st.test, env)
+                if v is not False:
+                    self.block(st.body + after, self.refine(st.test, env, True) if v is None else dict(env), rest)
+                if v is not True:
+                    self.block(st.orelse + after, self.refine(st.test, env, False) if v is None else dict(env), rest)
+                return
+            if isinstance(st, ast.With):
+                self.block(st.body + stmts[i + 1:], env, rest)
+                return
+            if isinstance(st, (ast.Assign, ast.AnnAssign, ast.AugAssign)):
+                value = st.value
+                if value is None:
+                    continue
+                v = self.ev(value, env)
+                targets = st.targets if isinstance(st, ast.Assign) else [st.target]
+                for t in targets:
+                    if isinstance(t, ast.Name):
+                        dep = _deps(value, env) | (_deps(t, env) if isinstance(st, ast.AugAssign) else frozenset())
+                        if isinstance(st, ast.AugAssign):
+                            v = self.ev(ast.BinOp(left=ast.Name(id=t.id, ctx=ast.Load()), op=st.op, right=value), env)
+                        env[t.id] = v
+                        env["__deps__"] = {**env.get("__deps__", {}), t.id: dep}
+                    else:
+                        for x in ast.walk(t):
+                            if isinstance(x, ast.Name):
+                                env[x.id] = UK
+                continue
+            if isinstance(st, ast.Expr):
+                self.ev(st.value, env)
+                continue
+            # loops, try ... : every name they bind becomes unknown
+            for x in ast.walk(st):
+                if isinstance(x, ast.Name) and isinstance(x.ctx, ast.Store):
+                    env[x.id] = UK
+        if rest:
+            self.block(rest, env, [])
+        else:
+            self.paths += 1
+
+
+def rule_roots_domain(run: Run, prog: Program) -> int:
+    run.rule("E12.roots.div", "roots() divides by nothing that is zero on its domain: with every coefficient fixed to zero / non-zero (the leading one of the "
+                              "degree non-zero) the body is interpreted over {zero, nonzero, unknown} path by path, and no division has a divisor that is "
+                              "definitely zero")
+    fn = prog.find_func("geometer.utils.math.roots") or prog.find_func("roots")
+    if fn is None:
+        run.add("E12.roots.div", "roots", "divisors", UNDECIDED, "roots not found", "")
+        return 0
+    fn = prog.body_of(fn)
+    body = fn.node.body
+    start = None
+    coef = None
+    for i, st in enumerate(body):
+        for x in ast.walk(st):
+            if isinstance(x, ast.Assign) and isinstance(x.targets[0], ast.Tuple) and len(x.targets[0].elts) == 4 and all(isinstance(y, ast.Name) for y in x.targets[0].elts):
+                coef = [y.id for y in x.targets[0].elts]
+                start = i + 1
+                break
+        if coef:
+            break
+    if coef is None:
+        run.add("E12.roots.div", fn.short, "divisors", UNDECIDED, "the unpacking `a, b, c, d = p` was not found", fn.loc)
+        return 0
+    it = _ZeroInterp()
+    n = 0
+    bad: dict[str, list[str]] = {}
+    guarded: list[str] = []
+    first_loc: dict[str, str] = {}
+    for pattern in itertools.product((Z, NZ), repeat=4):
+        if all(v == Z for v in pattern[:3]):
+            continue  # a constant is not a polynomial with roots
+        n += 1
+        env = dict(zip(coef, pattern))
+        try:
+            it.block(body[start:], env, [])
+        except _GuardedDivision as e:
+            guarded.append(f"`{ast.unparse(e.node)[:60]}` ({fn.module.rel}:{e.node.lineno})")
+        except _DivisionByZero as e:
+            degree = 3 - next(i for i, v in enumerate(pattern) if v == NZ)
+            key = f"division by zero in the degree-{degree} case"
+            desc = ", ".join(f"{nm} {'= 0' if v == Z else '!= 0'}" for nm, v in zip(coef, pattern))
+            bad.setdefault(key, []).append(f"`{ast.unparse(e.node)[:60]}` with {desc}")
+            first_loc.setdefault(key, f"{fn.module.rel}:{e.node.lineno}")
+    if not hasattr(run, "enumerated"):
+        run.enumerated, run.case_samples = {}, {}
+    run.enumerated["E12.roots.div"] = n
+    run.case_samples["E12.roots.div"] = [f"{n} zero patterns of (a, b, c, d), {it.paths} paths, {it.divisions} divisions judged"]
+    for key, lst in sorted(bad.items()):
+        run.add("E12.roots.div", fn.short, key, VIOLATION,
+                f"the divisor is zero for coefficients inside the domain of roots(): {'; '.join(lst[:3])} - the result is nan/inf instead of a root", first_loc[key])
+    if guarded:
+        run.add("E12.roots.div", fn.short, "divisions behind a test that was not decided", UNDECIDED,
+                f"a divisor is zero on a path whose conditions read the same coefficients and could not be decided over the zero domain: {'; '.join(sorted(set(guarded))[:3])}", fn.loc)
+    if not bad and not guarded:
+        run.add("E12.roots.div", fn.short, "divisors", PROVEN if it.divisions else UNDECIDED,
+                f"{n} zero patterns of the coefficients, {it.paths} paths, {it.divisions} divisions: no divisor is definitely zero", fn.loc)
+    return n
